@@ -58,6 +58,24 @@ def make_burst_case(rng, n_targets, lines):
         written[t["path"]] = {"stdout": so, "stderr": se}
     return {"targets": targets}, script, written
 
+def make_volume_case(rng, n_targets, mb):
+    """Tens of megabytes of newline-terminated text on both streams, so that a listener which is not being read for a few
+    seconds pushes back through the socket onto the run (the first target stays small: its stream is also replayed on the model)."""
+    targets = [{"path": "t%02d" % i} for i in range(n_targets)]
+    script, written = {"*": {"quiet": True}}, {}
+    for i, t in enumerate(targets):
+        tp = t["path"].encode()
+        if i == 0:
+            o = b"".join(b"%s small out %04d\n" % (tp, k) for k in range(200)); e = b"%s small err\n" % tp
+            script["build|%s" % t["path"]] = {"chunks": [[1, o.hex(), 50], [2, e.hex(), 0]]}
+            written[t["path"]] = {"stdout": [(o, 50)], "stderr": [(e, 0)]}; continue
+        lo = tp + b" out " + bytes(rng.choice(b"abcdefghijklmnopqrstuvwxyz0123456789") for _ in range(rng.randint(60, 140))) + b"\n"
+        le = tp + b" err " + bytes(rng.choice(b"ABCDEFGHIJKLMNOPQRSTUVWXYZ") for _ in range(rng.randint(60, 140))) + b"\n"
+        ro, re_ = mb * 1000000 // len(lo), mb * 1000000 // len(le)
+        script["build|%s" % t["path"]] = {"chunks": [[1, lo.hex(), 0, ro], [2, le.hex(), 0, re_]]}
+        written[t["path"]] = {"stdout": [(lo * ro, 0)], "stderr": [(le * re_, 0)]}
+    return {"targets": targets}, script, written
+
 def make_case(rng, n_targets, kind, layers=1):
     targets = [{"path": "t%02d" % i} for i in range(n_targets)]
     if layers == 2:
@@ -98,13 +116,14 @@ def check_stored(ctx, rr, out, written, case, focus_record=True):
 
 def parse_blocks(data):
     """Split tail / log show output into (stream, target, command) -> concatenated bytes.  Header lines introduce blocks."""
-    blocks, key, junk = {}, None, b""
+    parts, key, junkp = {}, None, []
     for line in data.split(b"\n"):
         m = HDR.match(line)
         if m:
-            key = (m.group(1).decode(), m.group(2).decode(), m.group(3).decode()); blocks.setdefault(key, b""); continue
-        if key is None: junk += line + b"\n"
-        else: blocks[key] += line + b"\n"
+            key = (m.group(1).decode(), m.group(2).decode(), m.group(3).decode()); parts.setdefault(key, []); continue
+        if key is None: junkp.append(line + b"\n")
+        else: parts[key].append(line); parts[key].append(b"\n")
+    blocks = {k: b"".join(v) for k, v in parts.items()}; junk = b"".join(junkp)
     # the split added one newline too many at the very end
     if key is not None and data and not data.endswith(b"\n"): blocks[key] = blocks[key][:-1]
     elif key is not None: blocks[key] = blocks[key][:-1] if blocks[key].endswith(b"\n") and data.endswith(b"\n") else blocks[key]
@@ -216,8 +235,11 @@ def c15_case(ctx, rng, n_targets, kill_at, flt):
     finally:
         rr.close()
 
-def c20_case(ctx, rng, n_targets, flt, crlf=False, burst=0):
-    cfg, script, written = make_burst_case(rng, n_targets, burst) if burst else make_case(rng, n_targets, "text")
+def c20_case(ctx, rng, n_targets, flt, crlf=False, burst=0, paused=0):
+    """paused > 0: whoever reads the listener's output (a pager, a slow pipe, a stopped job) does not read for that many seconds
+    while the run produces far more than the pipe and socket buffers hold; afterwards it reads everything."""
+    if paused: cfg, script, written = make_volume_case(rng, n_targets, 2)
+    else: cfg, script, written = make_burst_case(rng, n_targets, burst) if burst else make_case(rng, n_targets, "text")
     if crlf:
         t0 = cfg["targets"][0]["path"]
         script["build|%s" % t0]["chunks"].append([1, b"dos line\r\n".hex(), 0]); written[t0]["stdout"].append((b"dos line\r\n", 0))
@@ -228,12 +250,13 @@ def c20_case(ctx, rng, n_targets, flt, crlf=False, burst=0):
         import threading
         got = bytearray()
         def pump():
+            if paused: time.sleep(paused)
             while True:
                 b = lst.stdout.read1(65536) if hasattr(lst.stdout, "read1") else lst.stdout.read(65536)
                 if not b: break
                 got.extend(b)
         th = threading.Thread(target=pump, daemon=True); th.start()
-        rc, out, err, raw = rr.run("-c", "build", timeout=180)
+        rc, out, err, raw = rr.run("-c", "build", timeout=300 if paused else 180)
         # the listener prints line by line; wait until it has drained what the run sent (no growth for 1 s, at most 90 s)
         last, quiet, t0 = -1, 0, time.time()
         while quiet < 5 and time.time() - t0 < 90:
@@ -245,7 +268,7 @@ def c20_case(ctx, rng, n_targets, flt, crlf=False, burst=0):
         except subprocess.TimeoutExpired: lst.kill()
         th.join(timeout=5)
         lo = bytes(got)
-        case = {"targets": n_targets, "filters": flt, "crlf": crlf, "burst": burst, "script": script if not burst else "burst"}
+        case = {"targets": n_targets, "filters": flt, "crlf": crlf, "burst": burst, "paused": paused, "script": script if not (burst or paused) else "generated"}
         if out is None:
             ctx.record(case, True, False, False, True, detail={"what": "run failed", "rc": rc, "err": err}); return
         logs = stored_logs(rr, out)
@@ -274,7 +297,7 @@ def c20_case(ctx, rng, n_targets, flt, crlf=False, burst=0):
         v = ctx.model.call("reader", events_of(written[t0p]["stdout"]), adm0, [], logs.get(os.path.join("build", runscen.thash(t0p), "stdout.zst")) or b"",
                            [blocks.get(("stdout.zst", t0p, "build"), b"")])
         ok = not problems
-        ctx.count("filters_%s" % ("targets" if tsel is not None else "all")); ctx.count("crlf" if crlf else "lf")
+        ctx.count("filters_%s" % ("targets" if tsel is not None else "all")); ctx.count("crlf" if crlf else "lf"); ctx.count("reader_paused_%ds" % paused)
         ctx.record(case, True, bool(v[2]), ok, True,
                    sample={"targets": n_targets, "filters": flt, "blocks": len(blocks), "tail_bytes": len(lo)},
                    detail={"problems": problems[:5], "model_agrees": bool(v[2])})
@@ -296,11 +319,13 @@ def run(ctx, scale, focus):
                 (3, ["--stdout", "--stderr"], True, 0), (6, ["--stdout", "--stderr"], False, 3000)]
         if not ctx.quick(): plan = plan * 10
         for n, flt, crlf, burst in plan * scale: c20_case(ctx, random.Random(rng.getrandbits(32)), n, flt, crlf, burst)
+        for n, secs in ([(6, 3)] if ctx.quick() else [(6, 3), (8, 5), (4, 2)]) * scale:
+            c20_case(ctx, random.Random(rng.getrandbits(32)), n, ["--stdout", "--stderr"], False, 0, paused=secs)
 
 def replay(ctx, case, focus):
     c = case.get("case", case)
     rng = random.Random(ctx.seed)
     if focus == "C08": c08_case(ctx, rng, c.get("targets", 4), c.get("kind", "mixed"))
     elif focus == "C15": c15_case(ctx, rng, c.get("targets", 4), c.get("listener_killed", 0.25), c.get("filters", ["--stdout", "--stderr"]))
-    else: c20_case(ctx, rng, c.get("targets", 4), c.get("filters", ["--stdout", "--stderr"]), c.get("crlf", False), c.get("burst", 0))
+    else: c20_case(ctx, rng, c.get("targets", 4), c.get("filters", ["--stdout", "--stderr"]), c.get("crlf", False), c.get("burst", 0), c.get("paused", 0))
     return {"spec_failures": [d for _, d in ctx.spec_failures][:3], "disagreements": [d for _, d in ctx.tie_breaks][:3]}
